@@ -433,6 +433,54 @@ def binary_mode(ctx, fi, data, lay):
                    'the drain re-enters dataReceived once per buffered '
                    'message: a read carrying ~1000 small messages exceeds '
                    'the interpreter recursion limit and the rest is lost')
+    # D3: the framing loop is left only for want of bytes.  Every way out of
+    # it that does not deliver must rest on a comparison of the buffered
+    # length ("fewer than 16", "fewer than the message needs"), or on the
+    # needed length being 0 (no header read yet) - a message that is complete
+    # in the buffer is delivered whatever else is true of the connection
+    segs = list(segments(paths))
+    is_buflen = lambda x: kind(x) == 'call' and x[1] == 'len' and x[3] and \
+        contains(x[3][0], lambda y: y == ('attr', SELF, '_buffer') or
+                 (kind(y) == 'loopvar'))
+    needed = set()
+    for trace, cond, st, outcome, in_loop, lev in segs:
+        for c, pol in cond:
+            if kind(c) == 'cmp' and c[1] in ('<', '<=', '>', '>='):
+                if is_buflen(c[2]):
+                    needed.add(c[3])
+                elif is_buflen(c[3]):
+                    needed.add(c[2])
+    n_exit = 0
+    for trace, cond, st, outcome, in_loop, lev in segs:
+        if not in_loop or outcome not in ('break', 'return') or \
+                any(is_delivery(ev) for ev in trace):
+            continue
+        n_exit += 1
+        short = False
+        for c, pol in cond:
+            if c in needed and not pol:
+                short = True          # `if not <needed length>:`
+            if kind(c) != 'cmp':
+                continue
+            if c[1] in ('<', '<=', '>', '>=') and (is_buflen(c[2]) or
+                                                    is_buflen(c[3])):
+                less = c[1] in ('<', '<=')
+                if is_buflen(c[3]):
+                    less = not less
+                if less == pol:
+                    short = True
+            if c[1] == '==' and pol and C(0) in (c[2], c[3]) and \
+                    (c[2] in needed or c[3] in needed):
+                short = True
+        ctx.ob('C04.D3', q, 'stops-only-for-want-of-bytes', short,
+               'the framing loop is left (%s) on a path whose conditions '
+               'say nothing about the buffer being too short [%s]: '
+               'messages that are complete in the buffer are not '
+               'delivered' % (outcome, '; '.join(
+                   '%s is %s' % (term_str(c)[:60], pol)
+                   for c, pol in cond[-2:])))
+    if n_exit == 0 and any(s_[4] for s_ in segs):
+        raise AnalysisError('C04: the framing loop has no exit path')
     want_cov = {(h, b) for h in range(0, 41) for b in (0, 1, 5, 8)}
     if covered_len:
         ctx.ob('C04.D1', q, 'total-length:all-lengths-covered',
